@@ -42,6 +42,8 @@ GRAPHS: Dict[str, Dict[str, List[str]]] = {
     "skipdir": {"root.yaml": ["sub/c.yaml", "a.yaml", "sub/c.yaml", "b.yaml"], "sub/c.yaml": [], "a.yaml": [], "b.yaml": []},
     "skipdir2": {"root.yaml": ["sub/c.yaml", "sub/d/e.yaml", "a.yaml"], "sub/c.yaml": ["d/e.yaml"], "sub/d/e.yaml": ["../../b.yaml"], "a.yaml": [], "b.yaml": []},
     "cross": {"root.yaml": ["a.yaml", "b.yaml"], "a.yaml": ["b.yaml"], "b.yaml": []},
+    # two DIFFERENT files that their importers name by the same relative string
+    "samestring": {"root.yaml": ["ra/d.yaml", "rb/d.yaml"], "ra/d.yaml": ["c.yaml"], "rb/d.yaml": ["c.yaml"], "ra/c.yaml": [], "rb/c.yaml": []},
 }
 KINDS = ("constant", "string", "alias", "struct", "message", "signal")
 SECTION = {"constant": "constants", "string": "string_constants", "alias": "aliases", "struct": "struct_defs",
@@ -186,7 +188,7 @@ def cases(tier: str) -> List[Dict[str, Any]]:
                           ("hostid", 0), ("hostid", 32768), ("hostid", -5), ("hostid-ok", 1), ("hostid-ok", 32766)):
             out.append(dict(cls="range", graph="single", core=core_on, what=what, val=val))
     # with the core definitions: clashes against core ids / names, representatives of every class
-    for gname in ("single", "diamond", "subdir") if tier == "quick" else graphs:
+    for gname in ("single", "diamond", "subdir", "samestring") if tier == "quick" else graphs:
         files = reachable(GRAPHS[gname])
         for f in files:
             out.append(dict(cls="core-msgid", graph=gname, core=True, file=f, form="message"))
